@@ -1,4 +1,4 @@
 SPECIFICATION Spec
-CONSTANTS SS = 4 Lens = {0, 5} AliasFix = TRUE OmitFix = TRUE HdrLimit = "off-by-one"
+CONSTANTS SS = 4 Lens = {0, 5} AliasFix = TRUE OmitFix = TRUE WipesKey = FALSE HdrLimit = "off-by-one"
 INVARIANTS NotBad
 CHECK_DEADLOCK FALSE
